@@ -4,6 +4,8 @@
 (* which only the "final" and "crashed" events matter here.                *)
 (*  {"ev":"final","timedout":bool,"notfinal":[c..],"instances":n,...}      *)
 (*  {"ev":"crashed","msg","where"}                                          *)
+(*  {"ev":"broken","w"}   a probe answer of instance w said "broken" (first) *)
+(*  {"ev":"procsnap","c","w",..}  a crunch-run was started on w; {"ev":"restart"} *)
 (***************************************************************************)
 EXTENDS DispatchLiveContract, TraceIO
 
@@ -12,10 +14,13 @@ Range(s) == {s[i] : i \in DOMAIN s}
 TraceInit == l = 1 /\ LCInit
 
 TraceNext ==
-    \/ IsEvent("reset") /\ lst' = "run"
+    \/ IsEvent("reset") /\ lst' = "run" /\ brk' = {} /\ used' = {}
+    \/ IsEvent("broken") /\ Broken(Ev.w)
+    \/ IsEvent("procsnap") /\ ProcStartOn(Ev.w)
+    \/ IsEvent("restart") /\ Restarted
     \/ IsEvent("final") /\ Final(Ev.timedout, Range(Ev.notfinal), Ev.instances)
     \/ IsEvent("crashed") /\ Crashed
-    \/ /\ l <= Len(Trace) /\ Trace[l].ev \notin {"reset", "final", "crashed"}
+    \/ /\ l <= Len(Trace) /\ Trace[l].ev \notin {"reset", "final", "crashed", "broken", "procsnap", "restart"}
        /\ l' = l + 1 /\ Other
 
 TraceSpec == TraceInit /\ [][TraceNext]_<<lcvars, l>>
